@@ -1,4 +1,4 @@
-From Tetl Require Import Lib.Base Lib.Arr C06a.Model C06a.Spec C06a.Instances.
+From Tetl Require Import Lib.Base Lib.Arr C06a.Model C06a.Spec C06a.Instances C06a.Instances2 C06a.IterModel C06a.Spec2.
 Require Extraction.
 Require Import ExtrOcamlBasic.
 Extraction Language OCaml.
@@ -10,4 +10,7 @@ Extraction "C06a_model.ml" wire_anchor
   rotate_spec reverse_spec swap_ranges_spec remove_if_spec unique_spec partition_point_spec
   stable_partition_spec shift_left_spec shift_right_spec stable_sort_spec merge_spec copy_n_spec
   rotate_copy_spec partition_copy_spec
-  key pred_of cmp_of eqv_of fun1_of fun2_of.
+  key pred_of cmp_of eqv_of fun1_of fun2_of
+  cmp_of2 move_fwd move_bwd copy_within_spec copy_backward_within_spec
+  advance_m next_m prev_m distance_m rev_eq rev_ne rev_lt rev_le rev_gt rev_ge rev_plus rev_minus rev_diff
+  rev_deref rev_index rev_incr rev_decr rpos.
